@@ -6,7 +6,7 @@ import (
 	"verif/harness/vproto"
 )
 
-var Params = [][2]int{{2, 4}, {2, 5}, {3, 6}, {3, 7}, {4, 8}, {25, 50}}
+var Params = [][2]int{{2, 4}, {2, 5}, {3, 6}, {3, 7}, {4, 8}, {25, 50}, {2, 3}}
 var Kinds = []string{"ptr", "pt", "bnd"}
 
 // builder of one history; `present` is the multiset of stored ids as a list
@@ -23,14 +23,14 @@ func (b *hb) ins(id int) {
 	if b.full() {
 		return
 	}
-	b.h.Ops = append(b.h.Ops, Op{false, id})
+	b.h.Ops = append(b.h.Ops, Op{ID: id})
 	b.present = append(b.present, id)
 }
 func (b *hb) del(id int) {
 	if b.full() {
 		return
 	}
-	b.h.Ops = append(b.h.Ops, Op{true, id})
+	b.h.Ops = append(b.h.Ops, Op{Del: true, ID: id})
 	for i, p := range b.present {
 		if p == id {
 			b.present = append(b.present[:i], b.present[i+1:]...)
@@ -335,9 +335,9 @@ func Corpus() []*Hist {
 		var o []Op
 		for _, x := range ops {
 			if x >= 0 {
-				o = append(o, Op{false, x})
+				o = append(o, Op{ID: x})
 			} else {
-				o = append(o, Op{true, -x - 1})
+				o = append(o, Op{Del: true, ID: -x - 1})
 			}
 		}
 		return o
@@ -362,6 +362,32 @@ func Corpus() []*Hist {
 	hs = append(hs, &Hist{Class: "corpus-points", Min: 2, Max: 5, Kind: "pt",
 		Pool: []Box{{0, 0, 0, 0}, {1, 1, 1, 1}, {2, 2, 2, 2}, {3, 3, 3, 3}, {4, 4, 4, 4}, {5, 5, 5, 5}, {6, 6, 6, 6}},
 		Ops:  seq(0, 1, 2, 3, 4, 5, 6, -4, -5, -6, -7, -1, -2, -3, 0), Queries: q})
+	// three levels thinned to a root whose children are chains of single-entry nodes, drained,
+	// refilled: one Delete has to take two levels off (14 fixed points, fixed deletion order)
+	ins := [][2]float64{{22, 21}, {21, 15}, {14, 19}, {23, 11}, {22, 18}, {4, 29}, {18, 15}, {12, 4}, {28, 21}, {5, 24},
+		{3, 12}, {15, 17}, {4, 26}, {22, 7}}
+	del := [][2]float64{{22, 18}, {21, 15}, {22, 21}, {4, 29}, {3, 12}, {14, 19}, {5, 24}, {12, 4}, {28, 21}, {22, 7},
+		{15, 17}, {18, 15}, {23, 11}, {4, 26}}
+	for _, par := range [][2]int{{2, 4}, {2, 3}, {2, 5}} {
+		for _, kind := range []string{"pt", "ptr"} {
+			var pool []Box
+			var ops []int
+			for i, p := range ins {
+				pool = append(pool, Box{p[0], p[1], p[0], p[1]})
+				ops = append(ops, i)
+			}
+			for _, d := range del {
+				for i, p := range ins {
+					if p == d {
+						ops = append(ops, -i-1)
+					}
+				}
+			}
+			ops = append(ops, 0, 1, 2, 3, 4, 5)
+			hs = append(hs, &Hist{Class: "corpus-chain-drain-refill", Min: par[0], Max: par[1], Kind: kind, Pool: pool,
+				Ops: seq(ops...), Queries: []Box{{-1e6, -1e6, 1e6, 1e6}, {10, 10, 22, 18}, {4, 26, 4, 26}}})
+		}
+	}
 	return hs
 }
 
@@ -378,6 +404,10 @@ func Gen(seed uint64, tier string) []*Hist {
 		kind := Kinds[(i/len(Params))%len(Kinds)]
 		phase := (i / 3) % 6
 		size := 8 + r.Intn(40)
+		if par[1] <= 4 && i%4 == 0 { // height >= 3 with small branching, complete drain and refill
+			phase = 0
+			size = 12 + r.Intn(30)
+		}
 		if par[1] <= 5 && r.Chance(0.2) {
 			size = 60 + r.Intn(40)
 		}
